@@ -4,7 +4,8 @@ selftest/last_run.json and seeded/*/meta.json (between the AUTOGEN markers)."""
 import json, os, sys
 HERE = os.path.dirname(os.path.dirname(os.path.abspath(__file__)))
 sys.path.insert(0, os.path.join(HERE, "selftest"))
-from mutants import MUTANTS, CONTROLS  # noqa
+from mutants import MUTANTS, CONTROLS, REFACTORINGS  # noqa
+MUTANTS = MUTANTS + REFACTORINGS
 
 def esc(s):
     return str(s).replace("|", "\\|").replace("\n", " ")
